@@ -22,15 +22,15 @@ mv /tmp/seeded_demo_$ID.rs tests/seeded_demo.rs
 # 2. demo with the change
 cargo test --offline $FARG --test seeded_demo -- --test-threads=1 > $OUT/demo_with_change.log 2>&1; D1=$?
 # 3. demo without the change
-git stash push -q -- src rsactor-derive
+git apply -R $OUT/patch.diff   # (not git stash: the stash is shared by all worktrees of a repository)
 cargo test --offline $FARG --test seeded_demo -- --test-threads=1 > $OUT/demo_without_change.log 2>&1; D0=$?
-git stash pop -q
+git apply $OUT/patch.diff
 python3 - <<PY
 import json
 json.dump({"seed": "$ID", "property": "$PROP", "suite_with_change_exit": $S1, "suite_failures": """$SUITE_FAIL""",
            "demo_with_change_exit": $D1, "demo_without_change_exit": $D0,
            "confirmed": ($S1 == 0 and $D1 != 0 and $D0 == 0),
-           "ran": ["cargo test --workspace --offline (change applied, demo moved aside)", "cargo test --offline $FARG --test seeded_demo (change applied)", "same with src reverted (git stash)"]},
+           "ran": ["cargo test --workspace --offline (change applied, demo moved aside)", "cargo test --offline $FARG --test seeded_demo (change applied)", "same with the change reverted (git apply -R)"]},
           open("$OUT/confirm.json", "w"), indent=1)
 PY
 tail -3 $OUT/suite_with_change.log > /dev/null
